@@ -117,3 +117,14 @@ Theorem cmap6_recompile_stable : forall data language m,
   end.
 Proof. exact ProofsCmap6.cmap6_recompile_stable. Qed.
 Print Assumptions cmap6_recompile_stable.
+
+(* cmap format 0 (the byte encoding table: 256 one-byte glyph IDs) *)
+From FV Require C02.ModelCmap0 C02.ProofsCmap0.
+Theorem cmap0_roundtrip : forall language m,
+  ProofsCmap6.sorted_from 0 m -> ProofsCmap6.gids_ok m ->
+  match ModelCmap0.cmap0_compile language m with
+  | Ok bytes => ModelCmap0.cmap0_decompile bytes = Ok (language, m)
+  | Err _ => True
+  end.
+Proof. exact ProofsCmap0.cmap0_roundtrip. Qed.
+Print Assumptions cmap0_roundtrip.
